@@ -1,14 +1,114 @@
-import PsV.Model.Fits
-import PsV.Model.FitsBytes
-/-! # C06 (work in progress) -/
+import PsV.Proofs.Fits
+import PsV.Proofs.FitsBytes
+/-!
+# C06 — FITS serialisation round-trips every table exactly, in the documented layout
+
+Property theorems only.  They are about `PsV.Fits.writeCore` / `readCore` / `encodeFits` / `decodeFits`, the
+definitions the correspondence driver (`PsV/Driver/C06.lean`) executes against the real library.  `E : Ext` (number
+text for `TDOUBLE` keys, float⇄double conversion) is arbitrary.  Data are bit patterns.
+-/
 namespace PsV
 open PsV.Fits
 
-theorem be32_roundtrip (x : UInt32) : (match be32 x with | [a,b,c,d] => rd32 a b c d | _ => 0) = x := by
-  simp only [be32, rd32]
-  have h := x.toNat_lt
-  apply UInt32.toNat_inj.mp
-  simp only [UInt8.toNat_ofNat', UInt32.toNat_ofNat']
-  omega
+/- `rowMajor` (row-major strides, `strides[i] = Π_{j>i} naxes[j]`) and `pad8` (trailing-blank padding to 8 characters)
+   are defined at the top of `PsV/Proofs/Fits.lean` (namespace `PsV.Fits`), because the helper lemmas use them:
+
+     def rowMajor : List Nat → List Nat
+       | [] => []
+       | _ :: as => prod as :: rowMajor as
+     def pad8 (v : Str) : Str := v ++ List.replicate (8 - v.length) ' '
+-/
+
+/-- What `write_fits_core` needs of a table to be able to store it (weaker than full well-formedness: no
+    relation between knot counts, orders and axis lengths is needed for the round trip). -/
+structure Storable (t : Table) : Prop where
+  ndim_pos : 1 ≤ t.ndim
+  ndim_le : t.ndim ≤ 999            -- FITS: NAXIS ≤ 999
+  knots_len : t.knots.length = t.ndim
+  naxes_len : t.naxes.length = t.ndim
+  knots_ne : ∀ k ∈ t.knots, k ≠ []
+  strides_rm : t.strides = rowMajor t.naxes
+  coef_len : t.coef.length = prod t.naxes
+  order_lt : ∀ o ∈ t.order, o < 2147483648
+  extents_len : ∀ e, t.extents = some e → e.length = 2 * t.ndim
+  periods_len : ∀ p, t.periods = some p → p.length = t.ndim
+  aux_ok : ∀ kv ∈ t.aux, reserved kv.1 = false ∧ kv.1 ≠ "EXTNAME".toList ∧ kv.1 ≠ "HDUNAME".toList
+            ∧ '\'' ∉ kv.2 ∧ kv.2.length ≤ 68
+
+/-- The table `read_fits_core` must return for what `write_fits_core` wrote. -/
+def Reread (E : Ext) (t t' : Table) : Prop :=
+  t'.order = t.order ∧ t'.knots = t.knots ∧ t'.naxes = t.naxes ∧ t'.strides = t.strides ∧ t'.coef = t.coef ∧
+  t'.extents = some (t.extents.getD (defaultExtents t.order t.knots)) ∧
+  t'.aux = t.aux.map (fun kv => (kv.1, pad8 kv.2)) ∧
+  (∀ p, t.periods = some p → (∀ x ∈ p, E.parseD (E.fmtD x) = some x) → t'.periods = some p) ∧
+  (t.periods = none → t'.periods = some (List.replicate t.ndim 0))
+
+/-- C06: write → read reproduces every field bit for bit; aux values gain trailing blanks only. -/
+theorem C06_roundtrip (E : Ext) (t : Table) (h : Storable t) :
+    ∃ t', readCore E (writeCore E t) = .ok t' ∧ Reread E t t' := by
+  refine ⟨rereadTable E t, readCore_writeGen E t false h.ndim_pos h.ndim_le h.knots_len h.naxes_len h.knots_ne
+    h.strides_rm h.coef_len h.order_lt h.extents_len h.aux_ok (fun hs => Bool.noConfusion hs), ?_⟩
+  refine ⟨rfl, rfl, rfl, rfl, rfl, rfl, rfl, ?_, ?_⟩
+  · intro p hp hx
+    show some (rdPeriods E t) = some p
+    rw [rdPeriods_exact E t p hp (h.periods_len p hp) hx]
+  · intro hp
+    show some (rdPeriods E t) = _
+    unfold rdPeriods
+    rw [hp]
+
+/-- the hypothesis of `C06_roundtrip` is satisfiable: a 2 × 3 table with extents, periods and two aux keys -/
+example : Storable exTable := by
+  constructor <;> decide
+
+/-- The older layout with a single `ORDER` key is read as the same table. -/
+theorem legacy_order_key (E : Ext) (t : Table) (h : Storable t) (o : Nat) (ho : ∀ x ∈ t.order, x = o) :
+    readCore E (writeGen E true t) = readCore E (writeGen E false t) := by
+  have hs : ∀ x ∈ t.order, x = t.order.headD 0 := by
+    intro x hx
+    have h1 := h.ndim_pos
+    unfold Table.ndim at h1
+    cases ht : t.order with
+    | nil => rw [ht] at h1; exact absurd h1 (by decide)
+    | cons a r => rw [ht] at hx ho; rw [ho x hx, List.headD_cons, ho a (by simp)]
+  rw [readCore_writeGen E t true h.ndim_pos h.ndim_le h.knots_len h.naxes_len h.knots_ne
+      h.strides_rm h.coef_len h.order_lt h.extents_len h.aux_ok (fun _ => hs),
+    readCore_writeGen E t false h.ndim_pos h.ndim_le h.knots_len h.naxes_len h.knots_ne
+      h.strides_rm h.coef_len h.order_lt h.extents_len h.aux_ok (fun hs => Bool.noConfusion hs)]
+
+/-- the hypotheses of `legacy_order_key` are satisfiable (2 × 3 table, both orders 2) -/
+example : Storable exTableLegacy ∧ ∀ x ∈ exTableLegacy.order, x = 2 := by
+  refine ⟨?_, by decide⟩
+  constructor <;> decide
+
+/-- A file without the EXTENTS extension gets the extents made up from the knots,
+    `[knots[i][order[i]], knots[i][nknots[i]-order[i]-1]]`. -/
+theorem missing_extents_defaults (E : Ext) (t : Table) (h : Storable t) :
+    ∃ t', readCore E (writeCore E { t with extents := none }) = .ok t' ∧
+      t'.extents = some (defaultExtents t.order t.knots) ∧ t'.knots = t.knots ∧ t'.coef = t.coef := by
+  refine ⟨rereadTable E { t with extents := none }, ?_, rfl, rfl, rfl⟩
+  exact readCore_writeGen E { t with extents := none } false h.ndim_pos h.ndim_le h.knots_len h.naxes_len
+    h.knots_ne h.strides_rm h.coef_len h.order_lt (fun e he => nomatch he) h.aux_ok
+    (fun hs => Bool.noConfusion hs)
+
+/-- non-vacuous: for the example table (which has an EXTENTS extension when written as is) the made-up extents
+    are `[knots[0][2], knots[0][5-2-1], knots[1][3], knots[1][7-3-1]]` -/
+example : Storable exTable ∧ defaultExtents exTable.order exTable.knots = [2, 2, 13, 13] := by
+  refine ⟨?_, by decide⟩
+  constructor <;> decide
+
+/-- Whatever is read (from any store), the strides are the row-major strides of the reversed image axes. -/
+theorem strides_reconstructed (E : Ext) (f : Fits) (h0 : Hdu) (rest : List Hdu) (t : Table)
+    (hf : f = h0 :: rest) (h : readCore E f = .ok t) :
+    t.naxes = h0.axes.reverse ∧ t.strides = rowMajor t.naxes := by
+  subst hf
+  have := readCore_strides E h0 rest t h
+  exact ⟨this.1, by rw [this.1]; exact this.2⟩
+
+/-- the hypotheses of `strides_reconstructed` are satisfiable: the file written for the example table is read -/
+example (E : Ext) : ∃ h0 rest t, writeCore E exTable = h0 :: rest ∧ readCore E (writeCore E exTable) = .ok t := by
+  have hS : Storable exTable := by constructor <;> decide
+  obtain ⟨t', ht', _⟩ := C06_roundtrip E exTable hS
+  exact ⟨_, _, t', rfl, ht'⟩
 
 end PsV
